@@ -56,7 +56,7 @@ DriftClause(m, o, r) ==
     ELSE IF m.pc = "sent" /\ m.cfg.route # "direct" /\ ReqPV(r) # m.pVerified THEN "ProxyIsVerified"
     ELSE IF m.pc # "sent" /\ ~o.closed THEN "Closed"
     ELSE IF LastSni(r) # m.sni THEN "SNI"
-    ELSE IF Len(r.conns) # 1 THEN "Dials"
+    ELSE IF Len(r.conns) = 0 THEN "Dials"        \* (a retrying caller dials again after a failed check)
     ELSE "ok"
 
 Dummy == InitState([reqs |-> "default", ah |-> "unset", fp |-> "unset", sh |-> "unset", ctx |-> "none",
